@@ -134,6 +134,29 @@ struct TrustSim {
 		K.ev("setup trust P1=%llu P2=%llu", (unsigned long long)P1, (unsigned long long)P2);
 	}
 
+	// extend a signature to the nearest publication of the (honest) publications file and keep or drop the result; objects that the
+	// result shares with the file must survive either way (later verdicts are judged by the usual oracles)
+	std::vector<KSI_Signature *> kept;
+	void op_extendpub(const run::Op &op) {
+		if (sigs.empty()) return;
+		TSig &s = sigs[(size_t)op.arg(0) % sigs.size()];
+		if (s.kind == S_INCONSISTENT) return;
+		bw.pubfile_bytes = pubfile_of(F_HONEST);
+		bw.pub_http_code = 200;
+		CallEnv e; e.behav = op.arg(2) % 4 == 3 ? B_STATUS_ERR : B_HONEST; e.subseed = (uint64_t)op.arg(3);
+		bw.arm(e);
+		KSI_Signature *ext = nullptr;
+		int res = KSI_extendSignature(ctx, s.sig, &ext);
+		bw.disarm();
+		K.ev("EXTENDPUB kind=%d behav=%s -> 0x%x", s.kind, behav_name(e.behav), res);
+		K.count(res == KSI_OK ? "outcome.extended_to_publication" : "outcome.extend_to_publication_refused");
+		if (ext) { if (op.arg(1) % 2) KSI_Signature_free(ext); else kept.push_back(ext); }
+		// let the context reuse whatever it has recycled
+		for (int i = 0; i < 3; i++) { KSI_Signature *c = nullptr; if (KSI_Signature_clone(s.sig, &c) == KSI_OK) KSI_Signature_free(c); KSI_DataHash *h = sdk::hash_from_imprint(ctx, imprint(1, "churn " + std::to_string(i))); KSI_DataHash_free(h); }
+		if (sdk::serialize(s.sig) != s.bytes) K.fail("C11", "signature-serialization-changed", "extend-to-publication", "extending changed the serialization of the source signature");
+		for (auto *k : kept) { int vr = KSI_Signature_verifyWithPolicy(k, NULL, 0, KSI_VERIFICATION_POLICY_INTERNAL, NULL); if (vr != KSI_OK) { K.fail("C11", "kept-signature-no-longer-verifies", "extend-to-publication", "a signature extended to a publication earlier no longer passes internal verification (0x%x)", vr); break; } }
+	}
+
 	void op_verify(const run::Op &op) {
 		if (sigs.empty()) return;
 		TSig &s = sigs[(size_t)op.arg(0) % sigs.size()];
@@ -269,9 +292,11 @@ struct TrustSim {
 		for (size_t i = 0; i < plan.ops.size() && !K.failed() && !K.inconclusive; i++) {
 			const run::Op &op = plan.ops[i];
 			if (op.k == "VERIFY") op_verify(op);
+			else if (op.k == "EXTENDPUB") op_extendpub(op);
 			else if (op.k == "TICK") { K.advance(std::max<int64_t>(1, op.arg(0))); K.ev("TICK %lld", (long long)op.arg(0)); }
 			states.push_back(last_state);
 		}
+		for (auto *k : kept) KSI_Signature_free(k);
 		for (auto &s : sigs) if (s.sig) KSI_Signature_free(s.sig);
 		if (ctx) KSI_CTX_free(ctx);
 		rr.hash = K.hash; rr.violations = K.violations; rr.counters = K.counters; rr.sim_ms = K.elapsed_ms;
@@ -298,6 +323,7 @@ struct TrustEngine : run::Engine {
 		int n = tier ? (int)g.range(2, 12) : (int)g.range(1, 4);
 		for (int i = 0; i < n; i++) {
 			if (g.chance(1, 6)) p.ops.push_back({"TICK", {g.pickl<int64_t>({1000, 600000, 3700000})}});
+			if (g.chance(1, 5)) p.ops.push_back({"EXTENDPUB", {(int64_t)g.below(S__COUNT), (int64_t)g.below(2), (int64_t)g.below(4), (int64_t)g.below(1 << 30)}});
 			p.ops.push_back({"VERIFY", {(int64_t)g.below(S__COUNT), (int64_t)g.below(5), (int64_t)g.below(5), (int64_t)g.below(2), (int64_t)g.below(2), (int64_t)g.below(B__COUNT), (int64_t)g.below(1 << 30),
 				g.chance(3, 4) ? 0 : (int64_t)g.range(1, 3), (int64_t)g.below(900), g.chance(1, 2) ? 0 : (int64_t)g.below(F__COUNT)}});
 		}
